@@ -724,8 +724,32 @@ def check_property(prop_id, tier, spec, seed):
             return
         if s["status"] == "error":
             tool_errors.append("%s: %s" % (s["name"], s.get("detail", "")[:2000])); return
+        # per-case completion witnesses ("case returned" in CaseW<I>::run): every dispatched case must complete normally
+        case_unreached = [w for w in s["witness_unreached"] if w.startswith("WITNESS:case returned")]
+        for w in case_unreached[:2]:
+            mm = re.search(r"ILj(\d+)E", w)
+            if not mm:
+                tool_errors.append("%s: VACUOUS case witness %s" % (s["name"], w)); continue
+            ci = int(mm.group(1))
+            try:
+                exe = build_native(j, tier)
+            except ToolError as e_:
+                tool_errors.append("%s: %s" % (s["name"], e_)); continue
+            vals = [ci] + [0] * 40
+            nr = native_run(exe, s["entry"], s["params"], vals, timeout=120)
+            desc = "dispatched case %d does not complete normally (all its paths are cut in symbolic execution)" % ci
+            rdir = os.path.join(VERIF, "replays", prop_id); os.makedirs(rdir, exist_ok=True)
+            rpath = os.path.join(rdir, re.sub(r"[^A-Za-z0-9_.=-]", "_", s["name"] + "__case%d" % ci) + ".json")
+            json.dump(dict(property=prop_id, job=s["job"], harness=j["harness"], entry=s["entry"], params=s["params"], nondet_values=vals, cbmc_property=w, assertion=desc,
+                           native=dict(rc=nr["rc"], out=nr["out"][-3000:], err=nr["err"][-3000:]), units=j.get("units", []), defines=j.get("defines", [])), open(rpath, "w"), indent=1)
+            if nr["timeout"] or nr["rc"] in (77, 78) or nr["rc"] < 0 or "AddressSanitizer" in nr["err"] or "runtime error" in nr["err"] or "ASSERT-FAIL" in nr["out"]:
+                k = match_known(known, prop_id, s, desc)
+                if k: known_hits.append((k, s, desc))
+                else: violations.append((s, desc + "; native run: rc=%s %s" % (nr["rc"], (nr["err"] or "").strip().splitlines()[-1:] ), rpath))
+            else:
+                tool_errors.append("%s: VACUOUS - %s, but the native run of that case is clean (values %s)" % (s["name"], desc, vals[:4]))
         if j.get("witness_any"):
-            if not s["witness_reached"]:
+            if not [w for w in s["witness_reached"] if not w.startswith("WITNESS:case returned")] and not s["witness_reached"]:
                 tool_errors.append("%s: VACUOUS - no witness reachable" % s["name"])
         elif s["witness_unreached"] and not j.get("allow_unreached"):
             tool_errors.append("%s: VACUOUS - witness not reachable: %s" % (s["name"], s["witness_unreached"][:5]))
